@@ -231,6 +231,37 @@ class Facts:
     def bodies_named(self, name):
         return self.by_name.get(name, [])
 
+    def inlined_view(self, name, helpers):
+        """a copy of body `name` in which the calls to the named crate-local helpers are replaced by their bodies
+        (engine/inline.py splice: reference forwarding, `?` error exits threaded).  Block numbers of the original body are
+        preserved (new blocks are appended), so sites found in the original can be looked up in the view."""
+        import copy
+        import inline
+        key = (name, tuple(sorted(helpers)))
+        cache = self.__dict__.setdefault('_views', {})
+        if key in cache:
+            return cache[key]
+        b = self.body(name)
+        if b is None:
+            return None
+        j = copy.deepcopy(b.j)
+        bodies = {x.path: x.j for x in self.bodies}
+        want = {x.path for h in helpers for x in self.bodies_named(h)}
+        for _ in range(3):
+            did = False
+            for bi in range(len(j['blocks'])):
+                t = j['blocks'][bi]['term']
+                if t and t['k'] == 'call':
+                    p = inline._callee_path(t, bodies)
+                    if p in want and p != j['path'] and len(t['args']) == bodies[p]['arg_count']:
+                        inline._splice(j, bi, copy.deepcopy(bodies[p]))
+                        did = True
+            if not did:
+                break
+        v = Body(self, j)
+        cache[key] = v
+        return v
+
     def closures_of(self, body):
         pre = body.path + '::{closure#'
         return [b for b in self.bodies if b.path.startswith(pre)]
